@@ -20,7 +20,7 @@ type Case struct {
 	Repeat int              `json:"repeat"`
 }
 
-var profile = crasheng.Profile{AbortPct: 30, MaxTxns: 6, Checkpoint: 15, OpenTail: true, OpenMid: 15}
+var profile = crasheng.Profile{AbortPct: 30, MaxTxns: 6, Checkpoint: 15, OpenTail: true, OpenMid: 15, PostCrash: 50}
 
 const rule = "Case = generated C01/C02-style history x 2-4 crash points k of its I/O trace (crash images with losers / un-flushed committed work) x every prefix j of the recovery run's own recorded I/O trace (page writes of evictions and of the final flush, log truncation, re-seeded log records), optionally the log write torn, nested to depth 2 on a sample; plus plain repetition of recovery 2-5 times. Oracle: the committed-set oracle of the first crash point k (state(D) or state(D+U)) and the post-recovery DML smoke test. Non-trivial = a second crash strictly inside the recovery trace of an image whose log was non-empty."
 
